@@ -95,6 +95,13 @@ def main():
             print("AUDIT-FAILED", problems)
             sys.exit(2)
     thms = common.prop_theorems(prop)
+    leanchecker = None
+    if proof_broken is None and tier == "thorough" and not replay:
+        # independent re-check of the compiled proofs of this property (and everything they import from this project) by the toolchain's leanchecker
+        rc, out = sh(["lake", "env", "leanchecker", f"EudoxiaModel.Props.{prop}"], cwd=LEAN)
+        leanchecker = "ok" if rc == 0 else out[-600:]
+        if rc != 0:
+            proof_broken = {"kind": "leanchecker", "detail": out[-1500:]}
 
     # 4+5. tie and statement on the implementation
     mod = load_prop_module(prop)
@@ -156,6 +163,7 @@ def main():
         "obligations": len(thms),
         "discharged": len(thms) if proof_broken is None else 0,
         "theorems": {t: axioms.get(t, []) for t in thms},
+        "leanchecker": leanchecker if leanchecker is not None else "not run in this tier",
         "checker_cmd": f"cd lean && lake build && lake env lean .lake/audit_{prop}.lean   # #print axioms of every theorem of Props/{prop}.lean",
         "trusted_base": ["Lean 4.33 kernel", "axioms: propext, Classical.choice, Quot.sound (no native_decide, no sorry)",
                          "harness/extract.py (tables regenerated from /repo)", "correspondence harness (sampling-based tie)",
